@@ -222,6 +222,9 @@ def run(chk, ctx):
         chk.floor('C10.B', 1, 'bit encoder paths')
     from .. import tsrules
     for cons, okk, why in tsrules.decimal_sign_rule(ctx):
+        if okk is None:
+            chk.undecide('C10.L', cons, why)
+            continue
         chk.ob('C10.L', cons, okk, why, site='pamqp/encode.py::decimal')
     for cons, okk, why in tsrules.table_key_rule(ctx):
         if okk is not None:
